@@ -152,7 +152,7 @@ def pinned_items(repo):
         if isinstance(node, ast.FunctionDef) and node.name in ("_constrain_value", "constrain_value", "_drop_repeated", "_memoized_apply", "_memoized_invert"):
             items[f"stacked_scopes.{node.name}"] = node
     for name, body in _branches(_find(ss, "Constraint", "apply_to_value")):
-        if name in ("is_instance", "is_value", "predicate", "one_of", "all_of"):
+        if name in ("predicate", "one_of", "all_of"):  # is_instance / is_value are translated by narrowsrc.py since phase 4
             items[f"stacked_scopes.Constraint.apply_to_value[{name}]"] = ast.Module(body=body, type_ignores=[])
     return {k: _dump(v) for k, v in items.items()}
 
